@@ -121,3 +121,19 @@ pub fn dbg_lattice() {
     }
     println!("dict content {}", crate::ev::hex(&d.content));
 }
+
+pub fn dbg_huff() {
+    use crate::cmp::near_uniform;
+    const B: usize = 128 * 1024;
+    for k in [200usize, 250, 254, 255, 256] {
+        for boost in [0usize, 50, 500, 5000] {
+            for m in [0usize, 1] {
+                let v = near_uniform(B, k, boost, m, 11);
+                let (sec, t) = ruzstd::verif::compress_literals(&v, None);
+                let frame = ruzstd::encoding::compress_to_vec(v.as_slice(), ruzstd::encoding::CompressionLevel::Fastest);
+                let w = zmodel::walker::walk(&frame, None);
+                println!("k={k} boost={boost} m={m}: literals section type {} len {} (raw {}), table {}; block decisions {:?} frame {}", sec[0] & 3, sec.len(), v.len() + 3, t.is_some(), w.map(|w| w.blocks.iter().map(|b| (crate::cmp::decision(b), b.stored, b.lits_regen, b.n_seqs)).collect::<Vec<_>>()), frame.len());
+            }
+        }
+    }
+}
